@@ -247,7 +247,19 @@ void GraphSession::opPlanarise(const Json &) {
     if (!ex.empty()) { probe(ex.c_str()); w->fault("exception"); violate("C15", "assert", ex, "during leafless routing / planarise"); violate("C19", "threw", "planarise-threw:" + ex, ""); return; }
     HarnessScope hs;
     probe("dialect.planarise");
-    { std::string outS; { LibScope ls; outS = Q->writeTglf(); } std::vector<double> out; uint64_t h = 1469598103934665603ULL; for (char ch : outS) h = (h ^ (unsigned char)ch) * 1099511628211ULL; out.push_back((double)(h >> 12)); record(out, true); }
+    {
+        // observable result, independent of the (process-global) node ids: node positions and edges as coordinate pairs, sorted
+        std::vector<std::pair<double, double>> np;
+        for (auto &p : Q->getNodeLookup()) { auto c = p.second->getCentre(); np.push_back({c.x, c.y}); }
+        std::sort(np.begin(), np.end());
+        std::vector<std::array<double, 4>> ep;
+        for (auto &p : Q->getEdgeLookup()) { auto a = p.second->getSourceEnd()->getCentre(), b = p.second->getTargetEnd()->getCentre(); std::array<double, 4> e{a.x, a.y, b.x, b.y}; if (std::make_pair(e[2], e[3]) < std::make_pair(e[0], e[1])) e = {b.x, b.y, a.x, a.y}; ep.push_back(e); }
+        std::sort(ep.begin(), ep.end());
+        std::vector<double> out;
+        for (auto &q : np) { out.push_back(q.first); out.push_back(q.second); }
+        for (auto &e : ep) for (double v : e) out.push_back(v);
+        record(out, false);
+    }
     if (!armed("C19")) return;
     for (auto &p : ext) if (!Q->getNodeLookup().count(p.first)) { violate("C19", "planarise", "original-node-missing-after-planarise", fmt("node %u", p.second)); return; }
     struct Seg { double x0, y0, x1, y1; };
